@@ -41,7 +41,8 @@ Inductive pyval :=
 | PList (l : list pyval)
 | PTuple (l : list pyval)
 | PDict (l : list (pyval * pyval))                   (* insertion order *)
-| PObj (id : Z).                                     (* an instance of the referenced SQLObject class *)
+| PObj (id : Z)                                      (* an instance of the referenced SQLObject class (integer id) *)
+| PObjS (id : str).                                  (* an instance of the referenced class with sqlmeta.idType = str *)
 
 (* what a sqlite row holds *)
 Inductive sval := SNull | SInt (z : Z) | SReal (f : fl) | SText (s : str) | SBlob (b : list N).
@@ -79,7 +80,8 @@ Record codecs := {
   jdumps : pyval -> res str;                          (* json.dumps (TypeError for unserialisable content) *)
   jloads : str -> pyval;                              (* json.loads *)
   uuid_str : N -> str;                                (* str(UUID(int=n)) *)
-  uuid_parse : str -> res N                           (* UUID(text).int *)
+  uuid_parse : str -> res N;                          (* UUID(text).int *)
+  py_str : pyval -> str                               (* str(v), for the kinds not rendered concretely *)
 }.
 
 (* ================================================================ small string helpers *)
@@ -428,7 +430,8 @@ Inductive coltype :=
 | TPickle
 | TUuid
 | TJson
-| TForeignKey.
+| TForeignKey                       (* to a class with integer ids *)
+| TForeignKeyStr.                   (* to a class with sqlmeta.idType = str *)
 
 (* ---- the type name handed to sqlite (col.py _sqliteType / _sqlType) *)
 Fixpoint render_type (t : list typiece) (size prec len : N) : str :=
@@ -463,6 +466,7 @@ Definition sqlite_type (T : coltype) : str :=
   | TEnum vals => varchar_of (maxlen vals)
   | TUuid => render_type gen_type_Uuid 0 0 0
   | TForeignKey => render_type gen_type_ForeignKeyInt 0 0 0
+  | TForeignKeyStr => render_type gen_type_ForeignKeyStr 0 0 0
   end.
 
 (* sqlite: "Determination Of Column Affinity", rules 1-5 in order, on the upper-cased type name *)
@@ -743,6 +747,16 @@ Definition v_fk_from (v : pyval) : res pyval :=
   | _ => Raise E_Invalid
   end.
 
+(* ForeignKeyValidator.from_python for a string-keyed class: instances pass, else str(value),
+   which never fails *)
+Definition v_fks_from (C : codecs) (v : pyval) : res pyval :=
+  match v with
+  | PNone | PStr _ | PObjS _ => Ok v
+  | PInt z | PObj z => Ok (PStr (dec_Z z))
+  | PBool b => Ok (PStr (if b then s_True else s_False))
+  | _ => Ok (PStr (py_str C v))
+  end.
+
 (* ---- the validator chain of each column type (createValidators; compound.All runs
    from_python left to right and to_python right to left) *)
 Definition from_python (C : codecs) (T : coltype) (v : pyval) : res pyval :=
@@ -763,6 +777,7 @@ Definition from_python (C : codecs) (T : coltype) (v : pyval) : res pyval :=
   | TUuid => v_uuid_from C v
   | TJson => v_json_from C v
   | TForeignKey => v_fk_from v
+  | TForeignKeyStr => v_fks_from C v
   end.
 Definition to_python (C : codecs) (T : coltype) (v : pyval) : res pyval :=
   match T with
@@ -781,7 +796,7 @@ Definition to_python (C : codecs) (T : coltype) (v : pyval) : res pyval :=
   | TPickle => s <- v_string false v ;; b <- v_binary_to C s ;; v_pickle_to C b
   | TUuid => v_uuid_to C v
   | TJson => v_json_to C v
-  | TForeignKey => Ok v
+  | TForeignKey | TForeignKeyStr => Ok v
   end.
 
 (* ================================================================ converters: db value -> sqlite literal *)
@@ -801,6 +816,7 @@ Definition literal (C : codecs) (v : pyval) : res str :=
   | PDec neg c e => Ok (dec_eng_string neg c e)
   | PDecSpecial neg nan => Ok (dec_special_string neg nan)
   | PObj id => Ok (dec_Z id)
+  | PObjS id => Ok (sq_quote id)                      (* SQLObject.__sqlrepr__ = sqlrepr(self.id): a quoted string *)
   | PBytes _ | PUuid _ => Raise E_Value              (* Unknown SQL builtin type *)
   | PDelta _ _ _ | PList _ | PTuple _ | PDict _ => Raise E_Unmodelled   (* no validator hands these on *)
   end.
@@ -912,6 +928,7 @@ Inductive variant := VEager | VNoCache | VLazy.
 Definition fk_unwrap (T : coltype) (v : pyval) : pyval :=
   match T, v with
   | TForeignKey, PObj id => PInt id
+  | TForeignKeyStr, PObjS id => PStr id
   | _, _ => v
   end.
 
@@ -999,7 +1016,7 @@ Definition pytype (v : pyval) : pytag :=
   | PBytes _ => KBytes | PDate _ _ _ => KDate | PTime _ _ _ _ _ => KTime
   | PDateTime _ _ _ _ _ _ _ _ => KDateTime | PDelta _ _ _ => KDelta
   | PDec _ _ _ | PDecSpecial _ _ => KDecimal | PUuid _ => KUuid | PList _ => KList
-  | PTuple _ => KTuple | PDict _ => KDict | PObj _ => KObj
+  | PTuple _ => KTuple | PDict _ => KDict | PObj _ | PObjS _ => KObj
   end.
 Definition pytag_eqb (a b : pytag) : bool :=
   match a, b with
@@ -1069,6 +1086,7 @@ Fixpoint pyeq (a b : pyval) {struct a} : bool :=
   | PTuple x, PTuple y => all2 x y
   | PDict x, PDict y => Nat.eqb (length x) (length y) && sub x y
   | PObj x, PObj y => Z.eqb x y
+  | PObjS x, PObjS y => str_eqb x y
   | _, _ =>
       if is_numlike a && is_numlike b then
         match as_int a, as_int b with
@@ -1112,6 +1130,7 @@ Fixpoint pyval_eqb (a b : pyval) {struct a} : bool :=
   | PTuple x, PTuple y => all2 x y
   | PDict x, PDict y => allp x y
   | PObj x, PObj y => Z.eqb x y
+  | PObjS x, PObjS y => str_eqb x y
   | _, _ => false
   end.
 
@@ -1193,6 +1212,7 @@ Definition in_domain (T : coltype) (v : pyval) : bool :=
     | TUuid, PUuid _ => true
     | TJson, _ => json_domain v
     | TForeignKey, PInt z | TForeignKey, PObj z => int64_ok z
+    | TForeignKeyStr, PStr s | TForeignKeyStr, PObjS s => text_ok s
     | _, _ => false
     end
   end.
@@ -1286,3 +1306,17 @@ Definition engine_roundtrip (C : codecs) (T : coltype) (v : pyval) : bool :=
       end
     end
   else true.
+
+(* ---- the documented normalisation of the alternative input types of the date/time columns:
+   what every read must return (Ok e), or that the value must be refused (Raise), or None = not specified here *)
+Definition norm_spec (T : coltype) (v : pyval) : option (res pyval) :=
+  match T, v with
+  | TTime, PDelta days secs us =>
+      (* a timedelta is a time of day only from 0:00 up to 24:00; Python keeps a negative one as days = -1, ... *)
+      if Z.eqb days 0 then Some (Ok (PTime (secs / 3600) ((secs / 60) mod 60) (secs mod 60) us false))
+      else Some (Raise E_Invalid)
+  | TTime, PDateTime _ _ _ h mi s us _ => Some (Ok (PTime h mi s us false))
+  | TDate, PDateTime y m d _ _ _ _ _ => Some (Ok (PDate y m d))
+  | (TDateTime | TTimestamp), PDate y m d => Some (Ok (PDateTime y m d 0 0 0 0 false))
+  | _, _ => None
+  end.
